@@ -18,7 +18,7 @@
   genome (`Op.assign`); every method reads them at call time.
 
   Not modelled: `description`, timestamps, `modifier`/`reason` free text other than the four reasons the code
-  itself passes, console output, `get_statistics` (its counters are functions of the log), callbacks that re-enter the genome or tamper with the `Mutation` record.
+  itself passes, console output, callbacks that re-enter the genome or tamper with the `Mutation` record.
 -/
 namespace Operon.Genome
 
@@ -209,6 +209,28 @@ def diff (env : Env ν) (g h : Genome ν) : List (Nat × Option ν × Option ν)
   let names := g.genes.map (·.name) ++ (h.genes.map (·.name)).filter (fun n => !(g.genes.map (·.name)).contains n)
   (names.filter fun n => differs env (valueOf g n) (valueOf h n)).map fun n => (n, valueOf g n, valueOf h n)
 
+/-- `get_statistics()`: total_genes, generation, mutations_count, approved_mutations, by_type (genes per type, in
+    the order structural, regulatory, housekeeping, conditional, dormant), by_expression (expression states per level,
+    SILENCED … OVEREXPRESSED); its `hash` / `parent_hash` are `get_hash()` / the remembered parent hash -/
+structure Stats where
+  total : Nat
+  generation : Nat
+  mutations : Nat
+  approved : Nat
+  byType : List Nat
+  byExpr : List Nat
+  deriving Repr, DecidableEq
+
+def stats (g : Genome ν) : Stats :=
+  { total := g.genes.length
+    generation := g.generation
+    mutations := g.log.length
+    approved := (g.log.filter (·.approved)).length
+    byType := [GType.structural, .regulatory, .housekeeping, .conditional, .dormant].map fun t =>
+      (g.genes.filter fun x => x.gtype = t).length
+    byExpr := [Level.silenced, .low, .normal, .high, .over].map fun l =>
+      (g.expr.filter fun p => p.2 = l).length }
+
 /-! ### construction and replication -/
 
 def emptyGenome (allow : Bool) (cb : Option Nat) (rate : Bool) : Genome ν :=
@@ -317,6 +339,7 @@ inductive Op (ν : Type) where
   | listGenes (i : Nat)
   | diff (i : Nat) (j : Nat)
   | assign (i : Nat) (a : Assign)
+  | stats (i : Nat)
 
 inductive Obs (ν : Type) where
   | created (id : Nat)
@@ -329,6 +352,7 @@ inductive Obs (ν : Type) where
   | listing (l : List (Nat × ν × GType × Option Level × Bool))
   | diffs (d : List (Nat × Option ν × Option ν))
   | assigned
+  | statistics (s : Stats)
   | bad
   deriving Repr, DecidableEq
 
@@ -388,6 +412,10 @@ def step (env : Env ν) (st : Store ν) : Op ν → Store ν × Obs ν
     match st.genomes[i]? with
     | none => (st, .bad)
     | some g => (⟨st.genomes.set i (assign g a), st.calls, st.draws⟩, .assigned)
+  | .stats i =>
+    match st.genomes[i]? with
+    | none => (st, .bad)
+    | some g => (st, .statistics (stats g))
 
 /-- the store after a history -/
 def run (env : Env ν) (st : Store ν) : List (Op ν) → Store ν
